@@ -413,3 +413,62 @@ class SampleSeries(E2Contract):
 
     def canary(self, W, cfg, inp, out):
         return [eq("canary", out["mses"][0], 2 * out["mses"][0] + 1, "(false)")]
+
+
+class FisherEps(E2Contract):
+    """calc_fisher_matrix / calc_fisher_matrix_total with a caller-given eps and a distribution that HAS an entry below it (a zero-probability outcome
+    of a pure true object): the total is the weighted sum of the per-schedule matrices computed WITH THAT eps, each sum_x g_x g_x^T / r_x with r the
+    documented replacement of the distribution at eps"""
+    name = "matrix_util Fisher matrices with a given eps"
+    prop = "C19"
+    targets = (MU + ":calc_fisher_matrix", MU + ":calc_fisher_matrix_total", MU + ":replace_prob_dist")
+    max_paths = 16
+    n_conformance = 2
+
+    def configs(self, tier):
+        return [3] + ([4] if tier == "thorough" else [])
+
+    def inputs(self, W, cfg, mk):
+        m = cfg
+        eps = mk.real("eps")
+        mk.require(eps >= 1e-4)
+        mk.require(eps <= 5e-2)
+        g = [mk.array(f"g{j}_", (m, 2)) for j in range(2)]
+        w = [mk.real("w0"), mk.real("w1")]
+        for x in w:
+            mk.require(x >= 0)
+        return dict(eps=eps, g=g, w=w)
+
+    def sample(self, cfg, names, rng):
+        vals = {n: rng.uniform(-1, 1) for n in names}
+        vals["eps"] = 10 ** rng.uniform(-4, -1.4)
+        vals["w0"], vals["w1"] = rng.uniform(0.1, 1), rng.uniform(0.1, 1)
+        return vals
+
+    @staticmethod
+    def _dists(W, m):
+        np = W.np
+        q0 = np.array([0.0] + [1.0 / (m - 1)] * (m - 1), dtype=np.float64)           # one zero-probability outcome
+        q1 = np.array([0.5, 0.0] + [0.5 / (m - 2)] * (m - 2), dtype=np.float64)
+        return [q0, q1]
+
+    def run(self, W, cfg, inp):
+        mu = W.mod(MU)
+        q = self._dists(W, cfg)
+        return dict(single=[mu.calc_fisher_matrix(q[j], list(inp["g"][j]), inp["eps"]) for j in range(2)],
+                    total=mu.calc_fisher_matrix_total(q, [list(g) for g in inp["g"]], inp["w"], inp["eps"]))
+
+    def post(self, W, cfg, inp, out):
+        np = W.np
+        m = cfg
+        q = self._dists(W, m)
+        eps = inp["eps"]
+        ref = []
+        for j in range(2):
+            F = np.zeros((2, 2))
+            for x in range(m):
+                r = eps if float(q[j][x]) == 0.0 else q[j][x] - eps / (m - 1)
+                F = F + np.outer(inp["g"][j][x], inp["g"][j][x]) / r
+            ref.append(F)
+        return [eq("fisher(eps)", out["single"], ref, "Fisher matrix == sum_x grad p_x grad p_x^T / r_x, r the replacement of the distribution at the GIVEN eps"),
+                eq("fisher-total(eps)", out["total"], inp["w"][0] * ref[0] + inp["w"][1] * ref[1], "the total uses the same eps for every schedule")]
